@@ -24,7 +24,7 @@ use crate::backend::*;
 use crate::util::*;
 use kira::sound::static_sound::StaticSoundData;
 use kira::sound::streaming::StreamingSoundData;
-use kira::sound::{FromFileError, PlaybackPosition, PlaybackState};
+use kira::sound::{EndPosition, FromFileError, PlaybackPosition, PlaybackState, Region};
 use kira::Tween;
 use std::io::Cursor;
 use std::sync::mpsc;
@@ -92,6 +92,43 @@ pub fn encode(fmt: Fmt, ch: u16, rate: u32, samples: &[i128]) -> Vec<u8> {
 	out.extend_from_slice(&(((rate as u64 * block as u64) % (1u64 << 32)) as u32).to_le_bytes());
 	out.extend_from_slice(&(block as u16).to_le_bytes());
 	out.extend_from_slice(&fmt.bits().to_le_bytes());
+	out.extend_from_slice(b"data");
+	out.extend_from_slice(&(dlen as u32).to_le_bytes());
+	for &x in samples {
+		let u = x.rem_euclid(1i128 << (8 * w as u32)) as u128;
+		for k in 0..w {
+			out.push(((u >> (8 * k)) & 0xFF) as u8);
+		}
+	}
+	if dlen % 2 == 1 {
+		out.push(0);
+	}
+	out
+}
+/// the same audio under a WAVE_FORMAT_EXTENSIBLE header (fmt chunk of 40 bytes: cbSize 22, valid
+/// bits = container bits, dwChannelMask, SubFormat GUID of PCM / IEEE float); twin of
+/// C18/ModelWavExt.v `encode_ext`
+pub fn encode_ext(fmt: Fmt, ch: u16, rate: u32, mask: u32, samples: &[i128]) -> Vec<u8> {
+	let w = fmt.width();
+	let dlen = samples.len() * w;
+	let block = ch as usize * w;
+	let mut out = Vec::with_capacity(68 + dlen + 1);
+	out.extend_from_slice(b"RIFF");
+	out.extend_from_slice(&((60 + dlen + dlen % 2) as u32).to_le_bytes());
+	out.extend_from_slice(b"WAVE");
+	out.extend_from_slice(b"fmt ");
+	out.extend_from_slice(&40u32.to_le_bytes());
+	out.extend_from_slice(&0xFFFEu16.to_le_bytes());
+	out.extend_from_slice(&ch.to_le_bytes());
+	out.extend_from_slice(&rate.to_le_bytes());
+	out.extend_from_slice(&(((rate as u64 * block as u64) % (1u64 << 32)) as u32).to_le_bytes());
+	out.extend_from_slice(&(block as u16).to_le_bytes());
+	out.extend_from_slice(&fmt.bits().to_le_bytes());
+	out.extend_from_slice(&22u16.to_le_bytes());
+	out.extend_from_slice(&fmt.bits().to_le_bytes());
+	out.extend_from_slice(&mask.to_le_bytes());
+	out.extend_from_slice(&fmt.tag().to_le_bytes());
+	out.extend_from_slice(&[0, 0, 0, 0, 0x10, 0, 0x80, 0, 0, 0xAA, 0, 0x38, 0x9B, 0x71]);
 	out.extend_from_slice(b"data");
 	out.extend_from_slice(&(dlen as u32).to_le_bytes());
 	for &x in samples {
@@ -541,7 +578,12 @@ pub fn stream_play(bytes: &[u8], sr: u32, start: usize, seeks: &[(usize, usize)]
 /// by itself, or until nothing but silence has come out for `idle_limit` of wall time (the
 /// harness renders far faster than a device, so by then the data has long run out); afterwards
 /// the handle and the manager are dropped and the decoder must be released within 2 s.
+thread_local! {
+	/// the slice (in frames) the next streamed sounds are created with
+	static STREAM_SLICE: std::cell::Cell<Option<(usize, usize)>> = std::cell::Cell::new(None);
+}
 pub fn stream_play_ex(bytes: &[u8], sr: u32, start: usize, seeks: &[(usize, usize)], max_frames: usize, idle_limit: Option<Duration>) -> Played {
+	let slice = STREAM_SLICE.with(|c| c.get());
 	let b = bytes.to_vec();
 	let seeks = seeks.to_vec();
 	let r = with_watchdog(60, move || {
@@ -555,6 +597,10 @@ pub fn stream_play_ex(bytes: &[u8], sr: u32, start: usize, seeks: &[(usize, usiz
 			}
 		};
 		p.num_frames = data.num_frames();
+		let data = match slice {
+			Some((a, b)) => data.slice(Region { start: PlaybackPosition::Samples(a), end: EndPosition::Custom(PlaybackPosition::Samples(b)) }),
+			None => data,
+		};
 		let data = data.start_position(PlaybackPosition::Samples(start));
 		let mut m = simple_manager(sr, CH);
 		let mut h = match m.play(data) {
@@ -879,6 +925,42 @@ fn check_valid(s: &mut Session, fmt: Fmt, ch: u16, rate: u32, samples: &[i128], 
 	} else {
 		s.eval_only("static_valid_monitor_only");
 	}
+	(bytes, got)
+}
+
+/// a valid file under a WAVE_FORMAT_EXTENSIBLE header: what is loaded depends on the channel COUNT
+/// only, whatever speaker positions the mask names
+fn check_valid_ext(s: &mut Session, fmt: Fmt, ch: u16, rate: u32, mask: u32, samples: &[i128]) -> (Vec<u8>, Load) {
+	let bytes = encode_ext(fmt, ch, rate, mask, samples);
+	let got = load_static(&bytes);
+	let nframes = samples.len() / ch as usize;
+	let desc = format!(
+		"valid WAV (WAVE_FORMAT_EXTENSIBLE, dwChannelMask {:#x}) {:?} ch={} rate={} frames={}{}",
+		mask,
+		fmt,
+		ch,
+		rate,
+		nframes,
+		if bytes.len() <= 400 { format!(", file {}", hex(&bytes)) } else { format!(" (fnv {:#x})", fnv(&bytes)) }
+	);
+	match (&got, expected_frames(fmt, ch, samples)) {
+		(Load::Ok { rate: r2, frames }, Some(e)) => {
+			if *r2 != rate {
+				s.fail(desc.clone(), format!("sample rate {} instead of {}", r2, rate), None);
+			}
+			if frames.len() != nframes {
+				s.fail(desc.clone(), format!("{} frames instead of {}", frames.len(), nframes), None);
+			} else if let Some(i) = same_frames(frames, &e) {
+				s.fail(desc.clone(), format!("frame {} is ({:#x},{:#x}), the file encodes ({:#x},{:#x})", i, frames[i].0.to_bits(), frames[i].1.to_bits(), e[i].0.to_bits(), e[i].1.to_bits()), None);
+			}
+		}
+		(Load::Ok { frames, .. }, None) if nframes == 0 && frames.is_empty() => {}
+		(Load::ErrChannels, None) if nframes > 0 => {}
+		(g, _) => s.fail(desc.clone(), format!("loading gave {} (a file with {} channel(s): the speaker mask must not matter)", g.short(), ch), None),
+	}
+	let mut o = vec![fnv(&bytes) as i128];
+	o.extend(got.obs());
+	s.case("static_valid_extensible", format!("CStaticExt {} {} {} {} {} {}", fmt.tag(), fmt.bits(), ch, rate, mask, zs(samples)), &o, Some(format!("ext/{:?}/{}/{:#x}", fmt, ch.min(3), mask)));
 	(bytes, got)
 }
 
@@ -1474,6 +1556,24 @@ fn run_flac(s: &mut Session, rng: &mut Rng, args: &Args, mul: u64) {
 			check_stream(s, &what, &bytes, &exp, sr, rng.below(n as u64) as usize, &seeks, usize::MAX);
 		}
 	}
+	// one- and two-frame files (the last FLAC frame may be as short as one sample) and a file without
+	// any frame: loaded, and streamed to the end
+	for (bps, ch, total) in [(16u32, 1u32, 1usize), (24, 2, 2), (8, 1, 2), (16, 2, 1), (16, 1, 0)] {
+		let sp = FlSpec { bps, ch, rate: 44100, bs: 16 };
+		let frames: Vec<FlFrame> = if total == 0 { vec![] } else { vec![FlFrame { n: total, subs: (0..ch).map(|c| Sub::Verb((0..total).map(|t| (5 + t + 3 * c as usize) as i64).collect())).collect() }] };
+		let (bytes, _) = flac_encode(&sp, &frames, None);
+		let got = load_static(&bytes);
+		let desc = format!("valid {} -- streamed to the end", flac_desc(&sp, &frames, &bytes));
+		let exp = flac_expected(&sp, &frames).unwrap_or_default();
+		match &got {
+			Load::Ok { frames: fr, rate } if *rate == 44100 && same_frames(fr, &exp).is_none() => check_termination(s, desc, &bytes, 44100, &exp, &got.short(), None, None),
+			Load::Err(_) if total == 0 => check_termination(s, desc, &bytes, 44100, &[], &got.short(), None, None),
+			g => s.fail(desc, format!("loading gave {}", g.short()), None),
+		}
+		if total > 0 {
+			s.case("flac_valid", term_flac("CFlac", &sp, &frames, None, None), &flac_obs(&sp, &bytes, &got), Some(format!("flactiny/{}/{}/{}", bps, ch, total)));
+		}
+	}
 	// ---------- malformed files: one damaged frame, container intact -----------------------------
 	let nbases = 5 * mul as usize;
 	let mut tries = 0;
@@ -1622,6 +1722,53 @@ pub fn run(args: &Args) {
 	}
 
 	lap("valid files done");
+	// ---------- (a') WAVE_FORMAT_EXTENSIBLE headers: the speaker mask must not matter ----------------
+	{
+		const FL: u32 = 0x1; const FR: u32 = 0x2; const FC: u32 = 0x4; const LFE: u32 = 0x8; const BL: u32 = 0x10; const BR: u32 = 0x20;
+		const BC: u32 = 0x100; const SL: u32 = 0x200; const SR: u32 = 0x400; const TBR: u32 = 0x20000;
+		let masks1 = [0, FL, FC, FR, LFE, BC, TBR, FL | FR];
+		let masks2 = [0, FL | FR, FC | LFE, BL | BR, SL | SR, FL | FC, FL, FL | FR | FC, BC | TBR];
+		let masks_n = [0, FL | FR | FC, 0x3F, 0x63F];
+		let mut ext_stream: Vec<(String, Vec<u8>, Vec<(f32, f32)>, u32)> = vec![];
+		for &fmt in &FMTS {
+			for (ch, masks) in [(1u16, &masks1[..]), (2, &masks2[..]), (3, &masks_n[..]), (6, &masks_n[..])] {
+				for &mask in masks {
+					let n = if ch <= 2 { 1 + rng.below(6) as usize } else { 2 };
+					let rate = gen_rate(&mut rng);
+					let samples: Vec<i128> = (0..n * ch as usize).map(|_| gen_sample(&mut rng, fmt)).collect();
+					check_valid_ext(&mut s, fmt, ch, rate, mask, &samples);
+				}
+			}
+			// an empty file, and one longer than a packet of symphonia's reader
+			check_valid_ext(&mut s, fmt, 1, 44100, FC, &[]);
+			let long: Vec<i128> = (0..1200 * 2).map(|_| gen_sample(&mut rng, fmt)).collect();
+			check_valid_ext(&mut s, fmt, 2, 48000, BL | BR, &long);
+			s.flush();
+			// streamed: mono "front centre" and a pair that is not left/right
+			if matches!(fmt, Fmt::I16 | Fmt::I24 | Fmt::F32) {
+				for (ch, mask) in [(1u16, FC), (2u16, FC | LFE), (1, 0), (2, SL | SR)] {
+					let n = 300 + rng.below(1500) as usize;
+					let samples: Vec<i128> = (0..n * ch as usize)
+						.map(|_| match fmt {
+							Fmt::F32 => ((rng.unit_f64() * 2.0 - 1.0) as f32).to_bits() as i128,
+							_ => gen_sample(&mut rng, fmt),
+						})
+						.collect();
+					let sr = *rng.pick(&[8000u32, 22050, 44100, 48000]);
+					let bytes = encode_ext(fmt, ch, sr, mask, &samples);
+					if let Some(e) = expected_frames(fmt, ch, &samples) {
+						ext_stream.push((format!("generated WAV (WAVE_FORMAT_EXTENSIBLE, dwChannelMask {:#x}) {:?} ch={} rate={} frames={} (fnv {:#x})", mask, fmt, ch, sr, n, fnv(&bytes)), bytes, e, sr));
+					}
+				}
+			}
+		}
+		for (what, bytes, e, sr) in ext_stream {
+			// (the expected frames are the encoded ones: a file that does not load is reported above)
+			let start = if rng.chance(1, 2) { 0 } else { rng.below(e.len() as u64) as usize };
+			check_stream(&mut s, &what, &bytes, &e, sr, start, &[], usize::MAX);
+		}
+	}
+	lap("extensible WAV headers done");
 	// ---------- (b) streaming equals loading ---------------------------------------------------
 	// generated WAVs (integer encodings and in-range floats: the renderer clamps to [-1, 1])
 	for k in 0..(6 * mul) {
@@ -1974,6 +2121,45 @@ pub fn run(args: &Args) {
 					) }
 			);
 			check_termination(&mut s, desc, &b, sr, &valid, &st.short(), None, None);
+		}
+		// zero-, one- and two-frame sounds (valid files, a fully truncated one, empty / tiny slices): the
+		// stream must come to an end all the same
+		for (fmt, ch) in [(Fmt::I16, 1u16), (Fmt::U8, 2), (Fmt::F32, 1), (Fmt::I24, 2)] {
+			for n in [0usize, 1, 2] {
+				let sr = *rng.pick(&[8000u32, 44100, 48000]);
+				let samples: Vec<i128> = (0..n * ch as usize).map(|i| if matches!(fmt, Fmt::F32) { (0.5f32 + i as f32 / 8.0).to_bits() as i128 } else { (50 + i) as i128 }).collect();
+				for ext in [false, true] {
+					let b = if ext { encode_ext(fmt, ch, sr, if ch == 1 { 4 } else { 3 }, &samples) } else { encode(fmt, ch, sr, &samples) };
+					let st = load_static(&b);
+					let desc = format!("valid {}WAV {:?} ch={} rate={} with {} frame(s), file {} -- streamed to the end", if ext { "extensible " } else { "" }, fmt, ch, sr, n, hex(&b));
+					match &st {
+						Load::Ok { frames, .. } if frames.len() == n => check_termination(&mut s, desc, &b, sr, frames, &st.short(), None, None),
+						Load::Err(_) if n == 0 => check_termination(&mut s, desc, &b, sr, &[], &st.short(), None, None),
+						g => s.fail(desc, format!("loading gave {}", g.short()), None),
+					}
+				}
+			}
+			// the header announces 500 frames, nothing of the data is there
+			let sr = 44100;
+			let mut b = encode(fmt, ch, sr, &vec![if matches!(fmt, Fmt::F32) { 0x3F00_0000 } else { 77 }; 500 * ch as usize]);
+			b.truncate(44);
+			let st = load_static(&b);
+			check_termination(&mut s, format!("WAV {:?} ch={} rate={} whose header announces 500 frames, cut after the 44-byte header, file {} -- streamed to the end", fmt, ch, sr, hex(&b)), &b, sr, &[], &st.short(), None, None);
+		}
+		// slices of a valid file: empty, one frame, two frames, at the start, inside and at the very end
+		{
+			let n = 2000usize;
+			let samples: Vec<i128> = (0..n).map(|i| (100 + (i * 37) % 20000) as i128).collect();
+			let b = encode(Fmt::I16, 1, 8000, &samples);
+			if let Load::Ok { frames, .. } = load_static(&b) {
+				for (a, e) in [(0usize, 0usize), (700, 700), (n, n), (n + 5, n + 9), (0, 1), (1999, 2000), (700, 702), (1999, 2500), (900, 300)] {
+					STREAM_SLICE.with(|c| c.set(Some((a, e))));
+					let lo = a.min(n);
+					let hi = e.min(n).max(lo);
+					check_termination(&mut s, format!("WAV I16 mono 8000 Hz 2000 frames (sample i = 100 + (37 i mod 20000)), slice of frames {}..{} -- streamed to the end", a, e), &b, 8000, &frames[lo..hi], "Ok", None, None);
+					STREAM_SLICE.with(|c| c.set(None));
+				}
+			}
 		}
 		// and an intact file through the same monitor: natural end, decoder released
 		let samples: Vec<i128> = (0..3000).map(|i| (100 + (i * 37) % 20000) as i128).collect();
